@@ -15,7 +15,11 @@ from sim.loop import GRID
 from sim.prop import Prop, sweep_expand
 
 U = 128 * GRID  # 1/8 s
-OUTCOMES = ("value", "exc", "base", "raise_cancelled", "self_cancel", "ignore_value", "ignore_exc")
+OUTCOMES = ("value", "exc", "base", "raise_cancelled", "self_cancel", "ignore_value", "ignore_exc", "own_timeout")
+
+
+class OwnTimeout(TimeoutError):
+    """A TimeoutError raised by the wrapped function itself (e.g. from a socket): not the wrapper's."""
 
 
 class C16(Prop):
@@ -104,7 +108,7 @@ class C16(Prop):
 
         def make_fn(ci, spec):
             rec = {"started": [], "cancel_seen": [], "ended": None, "result": Obj(("r", ci)),
-                   "exc": Injected(("e", ci)), "base": InjectedBase(("b", ci))}
+                   "exc": Injected(("e", ci)), "base": InjectedBase(("b", ci)), "own": OwnTimeout(("t", ci))}
 
             async def fn(arg, *, kw=None):
                 rec["started"].append(sim.now)
@@ -131,6 +135,8 @@ class C16(Prop):
                         return rec["result"]
                     if out in ("exc", "ignore_exc"):
                         raise rec["exc"]
+                    if out == "own_timeout":
+                        raise rec["own"]
                     if out == "base":
                         raise rec["base"]
                     if out == "raise_cancelled":
@@ -263,6 +269,8 @@ class C16(Prop):
                 return kind == "value" and obj is rec["result"]
             if o in ("exc", "ignore_exc"):
                 return kind == "raised" and obj is rec["exc"]
+            if o == "own_timeout":
+                return kind == "timeout" and obj is rec["own"]
             if o == "base":
                 return kind == "raised" and obj is rec["base"]
             return kind == "cancelled"
@@ -307,8 +315,10 @@ class C16(Prop):
                 sim.stats["deadline_tie"] += 1
                 sim.nontrivial = True
         got = None
-        if kind == "timeout":
+        if kind == "timeout" and not (o == "own_timeout" and obj is rec["own"]):
             got = "timeout"
+            if isinstance(obj, OwnTimeout):
+                got = "foreign-own-timeout"
         elif kind == "cancelled" and (cancel_effective or o not in ("raise_cancelled", "self_cancel")):
             got = "cancelled"
         if "natural" in accept and natural_ok():
